@@ -206,8 +206,48 @@ def _install_refs(w):
 
     prev_getattr = w.getattr_ext
 
+    w.mutable_ref_fields = {}    # (class name, attr) -> True: dyn-valued fields that are stored to
+
+    def _mut_key(cls, attr):
+        for k in getattr(cls, "__mro__", ()):
+            if (k.__name__, attr) in w.mutable_ref_fields:
+                return (k.__name__, attr)
+        return None
+
+    def _mut_array(it, key):
+        arr = it.st.refheap.get(key)
+        if arr is None:
+            arr = it.st.refheap[key] = z3.Array(f"rh0_{key[0]}_{key[1]}", RefS, sym.ValS)
+            for o in it.live_olds + ([it.st.old] if it.st.old is not None else []):
+                o.refheap.setdefault(key, arr)
+        return arr
+
+    prev_setattr = w.setattr_ext
+
+    def setattr_ext(it, v, attr, val, node):
+        if isinstance(v, VRef):
+            key = _mut_key(v.cls, attr)
+            if key is not None:
+                c = it.contract
+                if c is not None and c.modifies is not None and not it.st.spec and it.depth == 0:
+                    allowed = {m.split(".")[-1] for m in c.modifies}
+                    it.oblige("FRAME", f"store to .{attr}", z3.BoolVal(attr in allowed),
+                              getattr(node, "lineno", 0))
+                arr = _mut_array(it, key)
+                it.st.refheap[key] = z3.Store(arr, v.t, w.to_dyn(it, val).t)
+                return True
+        return prev_setattr(it, v, attr, val, node)
+    w.setattr_ext = setattr_ext
+
     def getattr_ext(it, v, attr, node):
         if isinstance(v, VRef):
+            key = _mut_key(v.cls, attr)
+            if key is not None:
+                from .sym import VDyn
+                d = VDyn(z3.Select(_mut_array(it, key), v.t))
+                if hasattr(w, "dyn_wf"):
+                    w.dyn_wf(it, d)
+                return d
             spec = w.field_spec(v.cls, attr)
             if spec is not None:
                 return read_attr(it, v.cls.__name__, v.t, RefS, attr, spec)
